@@ -211,6 +211,11 @@ def run(rep):
             variants.append(("A-seekonly", dict(source=(0,), rplan=[10240] * (len(arc) // 10240 + 2), has_seek=1)))
         # class B: neither
         variants += [("B", dict(source=(0,), rplan=[]))]
+        if not small and len(arc) <= 40000 and not name.startswith("test_read_format_rar"):
+            # decoders fed through an inner callback (xar's XML parser, ...) have their own end-of-block paths:
+            # always one run with 1- to 3-byte blocks, whatever the tier samples below
+            tiny = r.choice([1, 2, 3])
+            variants += [("B", dict(source=(0,), rplan=[tiny] * (len(arc) // tiny + 2)))]
         variants += [("B", dict(source=(0,), rplan=[sz] * (len(arc) // sz + 2))) for sz in sizes]
         variants += [("B", dict(source=(4, r.choice([1, 512, 10240]))))]
         # class C: skip only
